@@ -90,6 +90,7 @@ def replay(recipe):
 def run(ctx):
     out = SP.run_streams(ctx, MASK, monitor, 'priority-contract', [
         ('G-sim-priority', 200, 3000, dict(algo='priority')),
+        ('G-sim-saturate-priority', 60, 1000, dict(saturate='priority')),
     ])
     st = collections.Counter(out['dist'])
     nt = 0
